@@ -86,6 +86,7 @@ func runLift[I, O any](lg *rec.Log, name, kind string, inputs []I, op func(ro.Ob
 		}
 	}
 	src := ro.NewUnsafeObservableWithContext(func(ctx context.Context, d ro.Observer[I]) ro.Teardown {
+		ctx = context.WithValue(ctx, rec.KeyMid, true) // a value attached upstream of the plugin operator
 		for _, x := range inputs {
 			d.NextWithContext(ctx, x)
 		}
@@ -103,12 +104,19 @@ func runLift[I, O any](lg *rec.Log, name, kind string, inputs []I, op func(ro.Ob
 			func(ctx context.Context, v O) {
 				delivered = append(delivered, v)
 				lg.Add(rec.Ev{E: "out", K: "N", V: in.id(v)})
+				lg.Add(rec.Ev{E: "octx", B: ctxKept(ctx)})
 				if ctx == nil {
 					lg.Add(rec.Ev{E: "panic", S: "nil context"})
 				}
 			},
-			func(ctx context.Context, err error) { lg.Add(rec.Ev{E: "out", K: "E"}) },
-			func(ctx context.Context) { lg.Add(rec.Ev{E: "out", K: "C"}) },
+			func(ctx context.Context, err error) {
+				lg.Add(rec.Ev{E: "out", K: "E"})
+				lg.Add(rec.Ev{E: "octx", B: ctxKept(ctx)})
+			},
+			func(ctx context.Context) {
+				lg.Add(rec.Ev{E: "out", K: "C"})
+				lg.Add(rec.Ev{E: "octx", B: ctxKept(ctx)})
+			},
 		))
 		sub.Unsubscribe()
 	}()
@@ -119,6 +127,11 @@ func runLift[I, O any](lg *rec.Log, name, kind string, inputs []I, op func(ro.Ob
 		lg.Add(rec.Ev{E: "outafter", I: j + 1, V: in.id(v)})
 	}
 	lg.Add(rec.Ev{E: "end"})
+}
+
+// ctxKept: the callback context carries the marker attached at subscription and the one the source attached to its notifications.
+func ctxKept(ctx context.Context) bool {
+	return ctx != nil && ctx.Value(rec.KeySub) != nil && ctx.Value(rec.KeyMid) != nil
 }
 
 func errIf(b bool) error {
@@ -453,6 +466,7 @@ var Scenarios = map[string]scenario{
 		}
 		cmp := func(a, b item) int { return a.Key - b.Key }
 		src := ro.NewUnsafeObservableWithContext(func(ctx context.Context, d ro.Observer[item]) ro.Teardown {
+			ctx = context.WithValue(ctx, rec.KeyMid, true) // a value attached upstream of the plugin operator
 			for _, x := range items {
 				d.NextWithContext(ctx, x)
 			}
@@ -470,10 +484,19 @@ var Scenarios = map[string]scenario{
 			enc := ro.Map(func(x item) int { return x.Key*1000 + x.Tag })(src)
 			o = ro.Map(func(v int) item { return item{Key: v / 1000, Tag: v % 1000} })(rosort.Sort(func(a, b int) int { return a - b })(enc))
 		}
-		sub := o.SubscribeWithContext(context.Background(), ro.NewObserverWithContext(
-			func(ctx context.Context, v item) { lg.Add(rec.Ev{E: "out", K: "N", V: v.Tag}) },
-			func(ctx context.Context, err error) { lg.Add(rec.Ev{E: "out", K: "E"}) },
-			func(ctx context.Context) { lg.Add(rec.Ev{E: "out", K: "C"}) },
+		sub := o.SubscribeWithContext(context.WithValue(context.Background(), rec.KeySub, true), ro.NewObserverWithContext(
+			func(ctx context.Context, v item) {
+				lg.Add(rec.Ev{E: "out", K: "N", V: v.Tag})
+				lg.Add(rec.Ev{E: "octx", B: ctxKept(ctx)})
+			},
+			func(ctx context.Context, err error) {
+				lg.Add(rec.Ev{E: "out", K: "E"})
+				lg.Add(rec.Ev{E: "octx", B: ctxKept(ctx)})
+			},
+			func(ctx context.Context) {
+				lg.Add(rec.Ev{E: "out", K: "C"})
+				lg.Add(rec.Ev{E: "octx", B: ctxKept(ctx)})
+			},
 		))
 		sub.Unsubscribe()
 		lg.Add(rec.Ev{E: "end"})
@@ -481,13 +504,16 @@ var Scenarios = map[string]scenario{
 	// ------------------------------------------------------------------ stdio readers
 	"stdio.reader": func(lg *rec.Log, r *rand.Rand) {
 		line := r.Intn(2) == 0
-		size := []int{0, 1, 1023, 1024, 1025, 2048, 5000}[r.Intn(7)] // crosses the reader buffer size
+		size := []int{0, 1, 1023, 1024, 1025, 2048, 5000, 70000}[r.Intn(8)] // crosses the reader buffer size; 70000: one line longer than bufio's 64 KiB token limit
 		data := make([]byte, size)
 		for i := range data {
 			data[i] = byte('a' + r.Intn(26))
-			if line && r.Intn(40) == 0 {
+			if line && size < 70000 && r.Intn(40) == 0 {
 				data[i] = '\n'
 			}
+		}
+		if line && size == 70000 {
+			data[size-7] = '\n' // a huge first line, then a short one
 		}
 		name := "stdio.NewIOReader"
 		if line {
